@@ -21,7 +21,7 @@ COMPONENTS = {
     'real': ['artap.operators.Selector.fast_nondominated_sorting', 'artap.operators.ParetoDominance', 'NSGAII / OMOPSO run loops'],
     'stub': ['user objective', 'PRNG seam', 'joblib', 'time.time', 'uuid1'],
 }
-PROBES_EXPECTED = ['sort_calls', 'duplicate_costs', 'mixed_feasibility', 'depth_ge_3', 'depth_ge_5', 'all_front_one',
+PROBES_EXPECTED = ['sorting_after_failed_call', 'epsilon_configured_selector', 'sort_calls', 'duplicate_costs', 'mixed_feasibility', 'depth_ge_3', 'depth_ge_5', 'all_front_one',
                    'reordered_pools', 'rescaled_pools', 'nsga2', 'omopso']
 
 
@@ -71,8 +71,19 @@ def hooks(ctx, w, D):
         if n >= 2 and st['n'] <= 12:
             from artap.individual import Individual
             saved = Individual.counter          # the clones must not shift the ids of the run's own designs
-            for variant in (0, 1, 2):
-                order = list(range(n))[::-1] if variant == 0 else sorted(
+            if st['n'] % 3 == 1:
+                # a ranking call that failed earlier (a member without results: the comparator raises) must not disable the
+                # selector for the valid populations that follow
+                bad = individuals[0].__class__(list(individuals[0].vector))
+                bad.costs_signed = []
+                ok_ = individuals[0].__class__(list(individuals[0].vector))
+                ok_.costs_signed = list(individuals[0].costs_signed)
+                try:
+                    orig(self, [ok_, bad])
+                except Exception:
+                    ctx.probe('sorting_after_failed_call')
+            for variant in (0, 1, 2, 3):
+                order = list(range(n))[::-1] if variant in (0, 3) else sorted(
                     range(n), key=lambda i: D.dec('work', ('shuf', st['n'], i), 1 << 16))
                 clones = []
                 for i in order:
@@ -86,12 +97,21 @@ def hooks(ctx, w, D):
                         c.costs_signed[0] = float(c.costs_signed[0]) * 1e17 + 4e17
                     c.costs = list(src.costs)
                     clones.append(c)
-                orig(self, clones)
+                if variant == 3:
+                    # ranking is by Pareto dominance whatever the tournament is configured with: a tournament selector set up
+                    # with the epsilon comparator (a constructor option) ranks the same population the same way
+                    from artap.operators import TournamentSelector, EpsilonDominance
+                    m_ = len(clones[0].costs_signed) - 1
+                    sel = TournamentSelector(self.parameters, dominance=EpsilonDominance, epsilons=[0.05] * max(1, m_))
+                    orig(sel, clones)
+                    ctx.probe('epsilon_configured_selector')
+                else:
+                    orig(self, clones)
                 ctx.probe('reordered_pools')
                 if variant == 2:
                     ctx.probe('rescaled_pools')
-                if not judge(clones, site, 'pool of %d in %s order%s' % (n, 'reversed' if variant == 0 else 'shuffled',
-                                                                           ' with objective 0 mapped to c*1e17+4e17' if variant == 2 else '')):
+                if not judge(clones, site, 'pool of %d in %s order%s' % (n, 'reversed' if variant in (0, 3) else 'shuffled',
+                                                                           ' with objective 0 mapped to c*1e17+4e17' if variant == 2 else ' by a tournament selector configured with the epsilon comparator' if variant == 3 else '')):
                     break
             Individual.counter = saved
         return r
